@@ -387,7 +387,7 @@ func classify(err error) string {
 	case strings.Contains(err.Error(), "invalid UTF-8"):
 		return "marshal"
 	}
-	return "other"
+	return "?" // unrecognised wording: a rejection of unclassified reason (Run/C02Run.v out_compat)
 }
 
 // boot builds (or rebuilds, after a restart) the instance: store, Silencer with an empty cache, alert provider with the
